@@ -3,6 +3,7 @@ mod fault_sweep;
 mod record;
 mod record_sampler;
 mod replay_nuts;
+mod replay_storage;
 
 fn main() {
     let args: Vec<String> = std::env::args().collect();
@@ -13,6 +14,7 @@ fn main() {
         "record-chains" => record::main(rest),
         "record-sampler" => record_sampler::main(rest),
         "fault-sweep" => fault_sweep::main(rest),
+        "replay-storage" => replay_storage::main(rest),
         _ => {
             eprintln!("usage: vh <replay-nuts|...> args");
             2
